@@ -9,3 +9,4 @@ from . import entry  # noqa: F401
 from . import clone  # noqa: F401
 from . import listeners  # noqa: F401
 from . import binding  # noqa: F401
+from . import isolation  # noqa: F401
